@@ -5,7 +5,7 @@
    same_obj: two timezone objects with the same identity tag are the same object. *)
 From Coq Require Import ZArith List Bool Lia ZifyBool.
 From PV Require Import Lib.PyBase Spec.Cal Spec.Zone Spec.NativeDT Proofs.CalFacts Proofs.ZoneFacts Gen.AddDuration Model.TzConvert.
-From PV Require Import Proofs.C03Facts Proofs.StdlibDTFacts Model.TzGlueObj Gen.TzGlue.
+From PV Require Import Proofs.C03Facts Proofs.StdlibDTFacts Model.TzGlueObj Gen.TzGlue Model.WallHistory.
 Import ListNotations.
 Ltac Zify.zify_post_hook ::= Z.to_euclidean_division_equations.
 Open Scope Z_scope.
@@ -42,17 +42,20 @@ Lemma foldb_b2z W f tz : g_foldb (dt_of W f tz) = f. Proof. destruct f; reflexiv
 Theorem glue_convert_naive tz W f r :
   glue_Timezone_convert tz (dt_of W f None) r = res_of (Some tz) (convert_naive (gz_zone tz) W f r).
 Proof.
+  (* robust to meaning-preserving rewrites of the source (b < a for a > b, reordered assignments or conjuncts): every test is split on both
+     sides and the combinations are closed by linear arithmetic, nothing is matched syntactically *)
   unfold glue_Timezone_convert, convert_naive, zi_utcoffset, g_set_fold, g_foldb, dt_of, sec, nat_add, g_set_tz.
   cbn [g_tz g_wall g_fold]. cbv zeta.
   set (ob := off_local (gz_zone tz) (W / MEG) false). set (oa := off_local (gz_zone tz) (W / MEG) true).
-  destruct f; cbv [Z.b2z]; change (1 =? 0) with false; change (0 =? 0) with true; cbn [negb]; cbv iota; fold ob oa; unfold MEG;
-  (replace (1000000 * oa >? 1000000 * ob) with (oa >? ob) by lia); (replace (1000000 * ob >? 1000000 * oa) with (ob >? oa) by lia);
-  (destruct (oa >? ob) eqn:G;
-   [ destruct r; [reflexivity|];
-     (replace (W + (1000000 * oa - 1000000 * ob)) with (W + 1000000 * (oa - ob)) by lia);
-     (replace (W + (1000000 * ob - 1000000 * oa)) with (W + 1000000 * (ob - oa)) by lia);
-     match goal with |- context [wall_in_range ?w] => destruct (wall_in_range w) end; reflexivity
-   | destruct ((ob >? oa) && r); reflexivity ]).
+  destruct f, r; cbv [Z.b2z]; change (1 =? 0) with false; change (0 =? 0) with true; cbn [negb andb orb]; cbv iota; fold ob oa; unfold MEG;
+  repeat match goal with |- context [if ?c then _ else _] => destruct c eqn:? end;
+  repeat match goal with
+         | H : wall_in_range _ = true |- _ => apply wall_in_range_iff in H
+         | H : wall_in_range _ = false |- _ => apply wall_in_range_false_iff in H
+         end;
+  cbn [res_of]; unfold dt_of; cbn [Z.b2z g_wall g_fold g_tz];
+  try reflexivity; try (exfalso; lia);
+  match goal with |- Ok (mkgdt ?a _ _) = Ok (mkgdt ?b _ _) => replace a with b by lia; reflexivity end.
 Qed.
 
 (* ---------- native astimezone between pendulum timezone objects = in_tz / astz ---------- *)
@@ -356,3 +359,192 @@ Example glue_examples :
   glue_Timezone_convert t (mkgdt (105000 * MEG) 1 None) false = Ok (mkgdt (105000 * MEG) 1 (Some t)) /\
   g_convert fx (mkgdt (105000 * MEG) 1 (Some t)) false = Ok (mkgdt (83400 * MEG) 0 (Some fx)).
 Proof. vm_compute. repeat split; reflexivity. Qed.
+
+(* ---------- DateTime.set / on / at / replace / naive = the step functions of Model/WallHistory.v ---------- *)
+Definition tzp (tzo : option gtz) : option (zone * bool) := option_map (fun t => (gz_zone t, gz_fixed t)) tzo.
+Definition hres (tzo : option gtz) (r : result hst) : result gdt :=
+  match r with Ok st => Ok (dt_of (h_W st) (h_f st) tzo) | Raise e => Raise e end.
+Definition g_build (tzo : option gtz) (W : Z) (f r : bool) : result gdt :=
+  match tzo with None => Ok (dt_of W f None) | Some t => res_of (Some t) (create (gz_zone t) (gz_fixed t) W f r) end.
+
+Lemma g_build_build tzo W f r : hres tzo (build (tzp tzo) W f r) = g_build tzo W f r.
+Proof.
+  destruct tzo as [t|]; [|reflexivity]. cbn [tzp option_map build g_build].
+  destruct (create (gz_zone t) (gz_fixed t) W f r) as [[W' f']|e]; reflexivity.
+Qed.
+
+Definition time_us (h mi s us : Z) : Z := ((h * 60 + mi) * 60 + s) * 1000000 + us.
+Definition fields_ok (y m d h mi s us : Z) : Prop :=
+  1 <= y <= 9999 /\ valid_dateb y m d = true /\ 0 <= h <= 23 /\ 0 <= mi <= 59 /\ 0 <= s <= 59 /\ 0 <= us <= 999999.
+
+Lemma nat_new_ok y m d h mi s us tz fold : fields_ok y m d h mi s us -> fold = 0 \/ fold = 1 ->
+  nat_new y m d h mi s us tz fold = Ok (mkgdt (wall_of y m d h mi s us) fold tz).
+Proof.
+  intros (Hy & Hv & Hh & Hm & Hs & Hu) Hf. unfold nat_new. rewrite Hv.
+  replace (1 <=? y) with true by lia. replace (y <=? 9999) with true by lia. replace (0 <=? h) with true by lia. replace (h <=? 23) with true by lia.
+  replace (0 <=? mi) with true by lia. replace (mi <=? 59) with true by lia. replace (0 <=? s) with true by lia. replace (s <=? 59) with true by lia.
+  replace (0 <=? us) with true by lia. replace (us <=? 999999) with true by lia. cbn [andb].
+  replace ((fold =? 0) || (fold =? 1)) with true by lia. reflexivity.
+Qed.
+
+(* DateTime.create on any valid fields *)
+Lemma glue_create_fields tzo y m d h mi s us f r : fields_ok y m d h mi s us ->
+  wall_in_range (wall_of y m d h mi s us) = true ->
+  glue_DateTime_create y m d h mi s us tzo (Z.b2z f) r = g_build tzo (wall_of y m d h mi s us) f r.
+Proof.
+  intros F R. unfold glue_DateTime_create. rewrite (nat_new_ok _ _ _ _ _ _ _ None _ F (b2z_fold f)).
+  set (W := wall_of y m d h mi s us) in *. change (mkgdt W (Z.b2z f) None) with (dt_of W f None).
+  destruct tzo as [t|]; cbv beta iota zeta delta [negb].
+  - rewrite glue_convert_naive_any by exact R. cbn [g_build]. apply rebuild_res. intros W' f' H. exact (create_in_range _ _ _ _ _ _ _ R H).
+  - rewrite rebuild; [reflexivity|exact R|apply b2z_fold].
+Qed.
+
+(* the fields of an existing in-range value *)
+Lemma own_fields d : wall_in_range (g_wall d) = true ->
+  fields_ok (g_year d) (g_month d) (g_day d) (g_hour d) (g_minute d) (g_second d) (g_microsecond d) /\
+  ymd2ord (g_year d) (g_month d) (g_day d) = g_wall d / us_per_day + 1 /\
+  time_us (g_hour d) (g_minute d) (g_second d) (g_microsecond d) = g_wall d mod us_per_day.
+Proof.
+  intros R. destruct (fields_in_range _ R) as (Hy & Hv & _). cbv zeta in Hy, Hv.
+  unfold ndt_year, ndt_month, ndt_day, ndt_ord in Hy, Hv. cbn [n_wall] in Hy, Hv.
+  pose proof (ymd2ord_ord2ymd (g_wall d / us_per_day + 1)) as Ho.
+  unfold fields_ok, time_us, g_year, g_month, g_day, g_hour, g_minute, g_second, g_microsecond, fields_of_wall.
+  destruct (ord2ymd (g_wall d / us_per_day + 1)) as [[y m] dd]. cbn [fst snd] in Hy, Hv.
+  unfold us_per_day in *. repeat split; try assumption; try lia.
+Qed.
+
+Lemma wall_of_split y m d h mi s us : wall_of y m d h mi s us = (ymd2ord y m d - 1) * us_per_day + time_us h mi s us.
+Proof. unfold wall_of, time_us. lia. Qed.
+
+Lemma day_us_val : day_us = us_per_day. Proof. reflexivity. Qed.
+
+(* set(<all seven fields>): OSetWall *)
+Theorem glue_set_wall tzo W f W' : wall_in_range W' = true ->
+  let d' := dt_of W' f None in
+  glue_DateTime_set (dt_of W f tzo) (Some (g_year d')) (Some (g_month d')) (Some (g_day d')) (Some (g_hour d')) (Some (g_minute d'))
+                    (Some (g_second d')) (Some (g_microsecond d')) None
+  = hres tzo (hstep (mkhst (tzp tzo) W f) (OSetWall W')).
+Proof.
+  intros R d'. unfold glue_DateTime_set. cbv beta iota zeta. cbn [g_tz g_fold dt_of hstep h_tz h_f].
+  destruct (own_fields d' R) as (F & Ho & Ht).
+  rewrite glue_create_fields; [| exact F | rewrite wall_of_split, Ho, Ht; cbn [g_wall d' dt_of]; replace (_ + _) with W' by (unfold us_per_day; lia); exact R].
+  rewrite wall_of_split, Ho, Ht. cbn [g_wall d' dt_of].
+  replace ((W' / us_per_day + 1 - 1) * us_per_day + W' mod us_per_day) with W' by (unfold us_per_day; lia).
+  rewrite g_build_build. destruct (g_build tzo W' f false); reflexivity.
+Qed.
+
+(* set(tz=t) / replace(tzinfo=t): OSetTz *)
+Theorem glue_set_tz tzo t W f : wall_in_range W = true ->
+  glue_DateTime_set (dt_of W f tzo) None None None None None None None (Some t)
+  = hres (Some t) (hstep (mkhst (tzp tzo) W f) (OSetTz (gz_zone t) (gz_fixed t))).
+Proof.
+  intros R. unfold glue_DateTime_set. cbv beta iota zeta. cbn [hstep h_W h_f].
+  set (d := dt_of W f tzo). destruct (own_fields d R) as (F & Ho & Ht). change (g_fold d) with (Z.b2z f).
+  rewrite glue_create_fields; [| exact F | rewrite wall_of_split, Ho, Ht; cbn [g_wall d dt_of]; replace (_ + _) with W by (unfold us_per_day; lia); exact R].
+  rewrite wall_of_split, Ho, Ht. cbn [g_wall d dt_of].
+  replace ((W / us_per_day + 1 - 1) * us_per_day + W mod us_per_day) with W by (unfold us_per_day; lia).
+  change (build (Some (gz_zone t, gz_fixed t)) W f false) with (build (tzp (Some t)) W f false). rewrite g_build_build.
+  destruct (g_build (Some t) W f false); reflexivity.
+Qed.
+
+(* on(y, m, d): OOn *)
+Theorem glue_on tzo W f y m d : wall_in_range W = true -> 1 <= y <= 9999 -> valid_dateb y m d = true ->
+  wall_in_range ((ymd2ord y m d - 1) * us_per_day + W mod us_per_day) = true ->
+  glue_DateTime_on (dt_of W f tzo) y m d = hres tzo (hstep (mkhst (tzp tzo) W f) (OOn (ymd2ord y m d - 1))).
+Proof.
+  intros R Hy Hv R'. unfold glue_DateTime_on, glue_DateTime_set. cbv beta iota zeta. cbn [hstep h_W h_f h_tz]. rewrite day_us_val.
+  set (s0 := dt_of W f tzo). destruct (own_fields s0 R) as ((_ & _ & Hh & Hm & Hs & Hu) & _ & Ht). change (g_fold s0) with (Z.b2z f). change (g_tz s0) with tzo.
+  assert (F : fields_ok y m d (g_hour s0) (g_minute s0) (g_second s0) (g_microsecond s0)) by (repeat split; assumption || lia).
+  assert (E : wall_of y m d (g_hour s0) (g_minute s0) (g_second s0) (g_microsecond s0) = (ymd2ord y m d - 1) * us_per_day + W mod us_per_day)
+    by (rewrite wall_of_split, Ht; reflexivity).
+  rewrite glue_create_fields; [| exact F | rewrite E; exact R']. rewrite E, g_build_build.
+  destruct (g_build tzo _ f false); reflexivity.
+Qed.
+
+(* at(h, mi, s, us): OAt *)
+Theorem glue_at tzo W f h mi s us : wall_in_range W = true -> 0 <= h <= 23 -> 0 <= mi <= 59 -> 0 <= s <= 59 -> 0 <= us <= 999999 ->
+  glue_DateTime_at (dt_of W f tzo) h mi s us = hres tzo (hstep (mkhst (tzp tzo) W f) (OAt (time_us h mi s us))).
+Proof.
+  intros R Hh Hm Hs Hu. unfold glue_DateTime_at, glue_DateTime_set. cbv beta iota zeta. cbn [hstep h_W h_f h_tz]. rewrite day_us_val.
+  set (s0 := dt_of W f tzo). destruct (own_fields s0 R) as ((Hy & Hv & _) & Ho & _). change (g_fold s0) with (Z.b2z f). change (g_tz s0) with tzo.
+  assert (F : fields_ok (g_year s0) (g_month s0) (g_day s0) h mi s us) by (repeat split; assumption || lia).
+  assert (E : wall_of (g_year s0) (g_month s0) (g_day s0) h mi s us = W / us_per_day * us_per_day + time_us h mi s us)
+    by (rewrite wall_of_split, Ho; cbn [g_wall s0 dt_of]; lia).
+  assert (R' : wall_in_range (W / us_per_day * us_per_day + time_us h mi s us) = true).
+  { apply wall_in_range_iff. apply wall_in_range_iff in R. unfold time_us, us_per_day. lia. }
+  rewrite glue_create_fields; [| exact F | rewrite E; exact R']. rewrite E, g_build_build.
+  destruct (g_build tzo _ f false); reflexivity.
+Qed.
+
+(* replace(fold=f'): OSetFold;  replace(tzinfo=None): OReplaceNoTz;  replace(tzinfo=t): OSetTz;  naive(): ODropTz *)
+Theorem glue_replace_fold tzo W f f' : wall_in_range W = true ->
+  glue_DateTime_replace_keep (dt_of W f tzo) None None None None None None None (Some (Z.b2z f'))
+  = hres tzo (hstep (mkhst (tzp tzo) W f) (OSetFold f')).
+Proof.
+  intros R. unfold glue_DateTime_replace_keep. cbv beta iota zeta. cbn [hstep h_W h_f h_tz].
+  set (d := dt_of W f tzo). destruct (own_fields d R) as (F & Ho & Ht). change (g_tz d) with tzo.
+  assert (T : (if negb match tzo with None => true | Some _ => false end then tzo else tzo) = tzo) by (destruct tzo; reflexivity). rewrite T.
+  rewrite glue_create_fields; [| exact F | rewrite wall_of_split, Ho, Ht; cbn [g_wall d dt_of]; replace (_ + _) with W by (unfold us_per_day; lia); exact R].
+  rewrite wall_of_split, Ho, Ht. cbn [g_wall d dt_of].
+  replace ((W / us_per_day + 1 - 1) * us_per_day + W mod us_per_day) with W by (unfold us_per_day; lia).
+  rewrite g_build_build. destruct (g_build tzo W f' false); reflexivity.
+Qed.
+
+Theorem glue_replace_tzinfo tzo tz' W f : wall_in_range W = true ->
+  glue_DateTime_replace_tz (dt_of W f tzo) None None None None None None None tz' None
+  = match tz' with
+    | Some t => hres (Some t) (hstep (mkhst (tzp tzo) W f) (OSetTz (gz_zone t) (gz_fixed t)))
+    | None => hres None (hstep (mkhst (tzp tzo) W f) OReplaceNoTz)
+    end.
+Proof.
+  intros R. unfold glue_DateTime_replace_tz. cbv beta iota zeta. cbn [hstep h_W h_f h_tz].
+  set (d := dt_of W f tzo). destruct (own_fields d R) as (F & Ho & Ht). change (g_fold d) with (Z.b2z f).
+  assert (T : (if negb match tz' with None => true | Some _ => false end then tz' else tz') = tz') by (destruct tz'; reflexivity). rewrite T.
+  rewrite glue_create_fields; [| exact F | rewrite wall_of_split, Ho, Ht; cbn [g_wall d dt_of]; replace (_ + _) with W by (unfold us_per_day; lia); exact R].
+  rewrite wall_of_split, Ho, Ht. cbn [g_wall d dt_of].
+  replace ((W / us_per_day + 1 - 1) * us_per_day + W mod us_per_day) with W by (unfold us_per_day; lia).
+  destruct tz' as [t|]; [|reflexivity].
+  change (build (Some (gz_zone t, gz_fixed t)) W f false) with (build (tzp (Some t)) W f false). rewrite g_build_build.
+  destruct (g_build (Some t) W f false); reflexivity.
+Qed.
+
+Theorem glue_naive tzo W f : wall_in_range W = true ->
+  glue_DateTime_naive (dt_of W f tzo) = hres None (hstep (mkhst (tzp tzo) W f) ODropTz).
+Proof.
+  intros R. unfold glue_DateTime_naive. rewrite nat_new_fields; [reflexivity|exact R|left; reflexivity].
+Qed.
+
+(* ---------- pendulum.from_timestamp (integer) = from_timestamp_int;  DateTime.instance = create with the fold of the native value ---------- *)
+Lemma create_from_own_fields tzo W f r : wall_in_range W = true ->
+  let d := mkgdt W 0 None in
+  glue_DateTime_create (g_year d) (g_month d) (g_day d) (g_hour d) (g_minute d) (g_second d) (g_microsecond d) tzo (Z.b2z f) r = g_build tzo W f r.
+Proof.
+  intros R d. destruct (own_fields d R) as (F & Ho & Ht).
+  rewrite glue_create_fields; [| exact F | rewrite wall_of_split, Ho, Ht; cbn [g_wall d]; replace (_ + _) with W by (unfold us_per_day; lia); exact R].
+  rewrite wall_of_split, Ho, Ht. cbn [g_wall d]. replace ((W / us_per_day + 1 - 1) * us_per_day + W mod us_per_day) with W by (unfold us_per_day; lia).
+  reflexivity.
+Qed.
+
+Theorem glue_from_timestamp_spec tz n : gtz_ok tz -> same_obj g_UTC tz ->
+  glue_from_timestamp n tz = res_of (Some tz) (from_timestamp_int (gz_zone tz) (gtz_is g_UTC tz) n).
+Proof.
+  intros Ot S. unfold glue_from_timestamp, from_timestamp_int, nat_utcfromtimestamp. cbv zeta.
+  change TzConvert.EPOCH_US with EPOCH_US_g. set (U := EPOCH_US_g + n * MEG).
+  destruct (wall_in_range U) eqn:R; cbn [negb]; [|reflexivity]. cbv beta iota zeta.
+  unfold glue_pendulum_datetime. change 1 with (Z.b2z true) at 1.
+  rewrite (create_from_own_fields (Some g_UTC) U true false R). cbn [g_build].
+  change (create (gz_zone g_UTC) (gz_fixed g_UTC) U true false) with (Ok (U, true) : result (Z * bool)). cbn [res_of]. cbv beta iota zeta.
+  rewrite (glue_in_timezone_aware g_UTC tz U true gtz_ok_UTC Ot S). destruct (res_of _ _); reflexivity.
+Qed.
+
+Theorem glue_instance_spec tzo tzarg W f : wall_in_range W = true ->
+  glue_DateTime_instance (dt_of W f tzo) tzarg = g_build (opt_tz_or tzo tzarg) W f false.
+Proof.
+  intros R. unfold glue_DateTime_instance. cbv beta zeta. cbn [g_tz dt_of]. fold (dt_of W f tzo).
+  set (T := opt_tz_or tzo tzarg).
+  assert (E : (if negb match T with None => true | Some _ => false end then T else T) = T) by (destruct T; reflexivity). rewrite E.
+  set (d := dt_of W f tzo). destruct (own_fields d R) as (F & Ho & Ht). change (g_fold d) with (Z.b2z f).
+  rewrite glue_create_fields; [| exact F | rewrite wall_of_split, Ho, Ht; cbn [g_wall d dt_of]; replace (_ + _) with W by (unfold us_per_day; lia); exact R].
+  rewrite wall_of_split, Ho, Ht. cbn [g_wall d dt_of]. replace ((W / us_per_day + 1 - 1) * us_per_day + W mod us_per_day) with W by (unfold us_per_day; lia).
+  destruct (g_build T W f false); reflexivity.
+Qed.
